@@ -62,6 +62,12 @@ THOROUGH = QUICK + [
     _c('uncoupled_week_anchor', 'uncoupled', dict(T=6, freq='d', shift_hours=96), 'W'),
     _c('storage_start_eq_end_T6', 'contract_storage', dict(T=6, freq='8h', wacc=True, storage_kw=dict(start_eq_end=True)), 'd', True),
     _c('storage_window_partial', 'contract_storage', dict(T=6, freq='8h', win_s=(1, 5), storage_kw=dict(start_eq_end=True)), 'd', True),
+    # deeper variants of the quick cases: more intervals, the empty interval at the end, the 25-hour day
+    _c('last_interval_without_any_asset', 'windows', dict(T=6, wins=((0, 2), (0, 3), (1, 4), (2, 4))), '2h'),
+    _c('scaled_contract_fixed_scale_three_intervals', 'scaled', dict(T=6, base='contract', fixed=True), '2h'),
+    _c('periodic_contract_three_duration_blocks', 'periodic', dict(T=12, kind='contract', ec=True, duration='4h'), '4h'),
+    _c('uncoupled_dst_autumn_day_split_by_day', 'uncoupled', dict(T=4, freq=('8h', '2021-10-31 00:00', '2021-11-01 07:00', 'CET'), wacc=True), 'd'),
+    _c('uncoupled_year_end_split_by_month', 'uncoupled', dict(T=4, freq=('d', '2023-12-30', '2024-01-03', None), unit='d', wacc=True), 'MS'),
 ]
 BOUNDS = dict(quick='%s; 2-3 intervals, T<=6' % [c[0] for c in QUICK], thorough='%s' % [c[0] for c in THOROUGH])
 OUTSIDE = ['order books spanning several intervals (they couple the intervals)', 'equality for take periods spanning several intervals (prorated per interval: split <= unsplit only)']
